@@ -1,3 +1,5 @@
 pub mod builtins;
 pub mod cek;
 pub mod mconst;
+pub mod blake2b;
+pub mod bind;
